@@ -110,8 +110,21 @@ class PacketzQueue(JSONBase):
         packet = Packet(to=to, data=data)
         serial = pack(packet)
         with self.writer() as queue:
-            queue.write(serial + "\n")
+            # NOTE a send that failed half way (disk full, a killed writer)
+            #   leaves a fragment without a newline: start a new line, or this
+            #   record would be glued to it and could never be received
+            queue.write(self._line_start() + serial + "\n")
         return packet
+
+    def _line_start(self) -> str:
+        try:
+            with self.path.open("rb") as q:
+                if q.seek(0, os.SEEK_END) == 0:
+                    return ""
+                q.seek(-1, os.SEEK_END)
+                return "" if q.read(1) == b"\n" else "\n"
+        except OSError:
+            return "\n"  # cannot tell: an empty line is skipped, a glued one is lost
 
     def receive(self) -> Iterator[PacketLike]:
         # NOTE read bytes and decode one complete line at a time: a partial or
